@@ -260,9 +260,11 @@ pub fn parse_file_internal(context: &ParseContext) -> Result<(), Error> {
     };
 
     let mut include_paths = include_paths.clone();
+    let mut own_directory = None;
     if let Some(parent) = current_path.parent() {
         if let None = include_paths.get(parent) {
             include_paths.insert(parent.to_path_buf());
+            own_directory = Some(parent.to_path_buf());
         }
     }
 
@@ -271,7 +273,7 @@ pub fn parse_file_internal(context: &ParseContext) -> Result<(), Error> {
 
     let include_paths = RefCell::new(include_paths);
 
-    let context = ParseContext {
+    let file_context = ParseContext {
         current_path,
         include_paths,
         common_context,
@@ -280,7 +282,16 @@ pub fn parse_file_internal(context: &ParseContext) -> Result<(), Error> {
         messages,
     };
 
-    parse(source.as_str(), &context)?;
+    parse(source.as_str(), &file_context)?;
+
+    // directories added by `.includepath` inside the file stay in force for the including
+    // file; the file's own directory does not
+    let mut outer_paths = context.include_paths.borrow_mut();
+    for path in file_context.include_paths.borrow().iter() {
+        if Some(path) != own_directory.as_ref() {
+            outer_paths.insert(path.clone());
+        }
+    }
 
     Ok(())
 }
